@@ -130,6 +130,8 @@ def gen_value(rng, ptype, inners, spec=None):
         if c < 0.25:
             return inner_value(rng, inners)
         return lit(rng)
+    if ptype in ('Number', 'Integer') and spec and spec.get('allow_None') and rng.random() < 0.35:
+        return None
     if ptype == 'Number':
         return rng.choice([rng.randint(-100, 100), -0.5, 1e100, math.inf, -math.inf, 2.5e-7])
     if ptype == 'Integer':
@@ -187,7 +189,9 @@ def equal(a, b, path='', diffs=None):
         if type(a) is not type(b):
             diffs.append(f'{path}: class {type(a).__name__} vs {type(b).__name__}')
             return
-        va, vb = a.param.values(), b.param.values()
+        # (what the objects hold is read by plain attribute access, not through the reader the printers themselves use)
+        va = {k: getattr(a, k) for k in a.param}
+        vb = {k: getattr(b, k) for k in b.param}
         for k in va:
             if k == 'name':
                 import re
@@ -384,6 +388,11 @@ def run_case(idx, rng, P, rep):
                                                             for k in rng.sample(['k', 'a b', 1, 2.5], rng.randint(1, 3))}
         elif pt == 'Parameter':
             kw['default'] = None if rng.random() < 0.6 else lit(rng)
+        elif pt in ('Number', 'Integer') and rng.random() < 0.4:
+            # a number that may also be None (over a default that is a number)
+            kw['allow_None'] = True
+            kw['default'] = 2.5 if pt == 'Number' else 3
+            sp['allow_None'] = True
         if kw.get('default'):
             rep.count('nonempty_container_defaults')
         sp['default'] = getattr(param, pt)(**kw).default
